@@ -28,6 +28,7 @@ def tell(**kw):
 
 w = None
 start = 0
+kept = []
 for i, op in enumerate(job["ops"]):
     tell(call=i, phase="begin", op=op[0], args=op[1:])
     resp, ret = "ok", -1
@@ -48,12 +49,16 @@ for i, op in enumerate(job["ops"]):
             gl = np.array([a for a, n in runs], dtype=np.uint64)
             off = np.cumsum([0] + [n for a, n in runs[:-1]]).astype(np.uint64)
             ret = int(w.rf_write_blocks(arr, gl, off))
+        elif op[0] == "past":
+            # a call the writer has to refuse (a write into the past); the application goes on afterwards
+            ret = int(w.rf_write(vals.array(np.arange(start, start + 2, dtype=np.uint64)), 0))
         elif op[0] == "close":
             w.close()
     except Exception as e:  # noqa: BLE001
         resp = "err"
         ret = -1
         exc = "%s: %s" % (type(e).__name__, str(e)[:120])
+        kept.append(e)      # an application's error log: the exception (and what its traceback refers to) stays alive
         tell(call=i, phase="end", resp=resp, ret=ret, exc=exc)
         continue
     tell(call=i, phase="end", resp=resp, ret=ret)
